@@ -62,39 +62,65 @@ def e1(res, tier, accept):
     return summ
 
 
-def record_and_judge(res, tier, n, cfgs, classify, spec="TraceEval", tag=None):
+def relate_lines(out):
+    res = []
+    for l in out.split("\n"):
+        m = re.match(r'^<<"RELATE", (\d+), "(\w+)", "([^"]*)">>$', l.strip())
+        if m:
+            res.append((int(m.group(1)), m.group(2), m.group(3)))
+    return res
+
+
+def validate_trace(res, spec, tr, classify, relation_prefix="relation:", expect_relations=False):
+    """Run trace specification `spec` over trace file `tr`; every line is judged against Denote
+    (JUDGE) and the relational laws are evaluated between lines (RELATE)."""
+    r = tlc(spec, env={"TRACE": tr}, workers=1, timeout=3000, tag="tr_" + res.prop + spec, heap="6g")
+    if "TRACE-REJECTED" in r["out"] or not r["ok"]:
+        log(r["out"][-3000:])
+        raise ToolError("%s did not consume the whole trace" % spec)
+    lines = open(tr).read().split("\n")
+    n = len([l for l in lines if l.strip()])
+    verdicts = judge_lines(r["out"])
+    if len(verdicts) != n:
+        raise ToolError("%s judged %d of %d lines" % (spec, len(verdicts), n))
+    res.add("states", r["distinct"])
+    res.add("transitions", r["states"])
+    kinds = {}
+    for (i, verdict, payloads) in verdicts:
+        line = json.loads(lines[i - 1])
+        kinds[line["obs"]["kind"]] = kinds.get(line["obs"]["kind"], 0) + 1
+        key = classify(verdict, payloads, line)
+        if key is None:
+            res.add("traces_validated_against_impl")
+        else:
+            texts = gv(["render"], input=json.dumps(line))
+            res.violation(key, {"line": line, "verdict": verdict, "spec": payloads, "rendered": texts[:6000]})
+        if i in (1, n // 2):
+            res.sample({"trace_line": {k: (v if k != "obs" else {a: b for a, b in v.items() if a != "tree"})
+                                       for k, v in line.items()}})
+    rel = relate_lines(r["out"])
+    if expect_relations and not rel:
+        raise ToolError("%s evaluated no relation (vacuous)" % spec)
+    for (i, verdict, name) in rel:
+        res.add("relations_checked")
+        if verdict != "ok":
+            line = json.loads(lines[i - 1])
+            grp = [json.loads(x) for x in lines if x.strip() and json.loads(x).get("grp") == line.get("grp")]
+            res.violation(relation_prefix + name, {"group": grp, "at_line": i, "relation": name,
+                                                    "rendered": [gv(["render"], input=json.dumps(g))[:3000] for g in grp[:4]]})
+    return n, kinds
+
+
+def record_and_judge(res, tier, n, cfgs, classify, spec="TraceEval", recorder="record-eval", expect_relations=False):
     """impl -> spec: record n random evaluations per generator configuration and validate the
     trace against the trace specification.  classify(verdict, payloads, line) -> key or None."""
-    tag = tag or res.prop
     total = 0
     for ci, cfg in enumerate(cfgs):
-        tr = os.path.join(WORK, "trace_%s_%s.ndjson" % (tag, cfg))
-        gv(["record-eval", "--seed", seed() * 7919 + ci, "--n", n, "--cfg", cfg, "--out", tr])
-        r = tlc(spec, env={"TRACE": tr}, workers=1, timeout=3000, tag="tr_" + tag, heap="6g")
-        if "TRACE-REJECTED" in r["out"] or not r["ok"]:
-            log(r["out"][-3000:])
-            raise ToolError("%s did not consume the whole trace" % spec)
-        verdicts = judge_lines(r["out"])
-        if len(verdicts) != n:
-            raise ToolError("%s judged %d of %d lines" % (spec, len(verdicts), n))
-        lines = open(tr).read().split("\n")
-        res.add("states", r["distinct"])
-        res.add("transitions", r["states"])
-        kinds = {}
-        for (i, verdict, payloads) in verdicts:
-            line = json.loads(lines[i - 1])
-            kinds[line["obs"]["kind"]] = kinds.get(line["obs"]["kind"], 0) + 1
-            key = classify(verdict, payloads, line)
-            if key is None:
-                res.add("traces_validated_against_impl")
-            else:
-                texts = gv(["render"], input=json.dumps(line))
-                res.violation(key, {"line": line, "verdict": verdict, "spec": payloads, "rendered": texts[:6000]})
-            if i in (1, n // 2):
-                res.sample({"trace_line": {"i": line["i"], "prog": line["prog"], "doc": line["doc"],
-                                           "obs": {k: v for k, v in line["obs"].items() if k != "tree"}}})
-        res.cov.setdefault("observed_kinds", {})[cfg] = kinds
-        total += n
+        tr = os.path.join(WORK, "trace_%s_%s_%s.ndjson" % (res.prop, spec, cfg))
+        gv([recorder, "--seed", seed() * 7919 + ci, "--n", n, "--cfg", cfg, "--out", tr])
+        cnt, kinds = validate_trace(res, spec, tr, classify, expect_relations=expect_relations)
+        res.cov.setdefault("observed_kinds", {})[spec + ":" + cfg] = kinds
+        total += cnt
         os.remove(tr)
     res.add("evaluations", total)
     return total
